@@ -17,8 +17,8 @@ META = dict(
     functions=['scared.distinguishers.base:DistinguisherMixin.update/compute', 'scared.distinguishers.cpa:*', 'scared.distinguishers.dpa:*', 'scared.distinguishers.partitioned:*',
                'scared.distinguishers.mia:*', 'scared.distinguishers.template:*', 'scared.ttest:TTestThreadAccumulator.update/compute/_update_core'],
     bounds=dict(quick='n = 3 traces (MIA: 2), every ordered partition into consecutive non-empty batches (4 compositions), with and without compute() after every update, compute() twice at the end; '
-                      '10 distinguishers; trace values symbolic (all reals), class labels concrete patterns including undeclared values; precision float64 (float32 as well for CPA, ANOVA, template build, t-test; for all in the thorough tier)',
-                thorough='n = 4 (8 compositions)'),
+                      '11 distinguishers (SNR also with two classes that are all populated after two traces; DPA labels with an all-zero trace); trace values symbolic (all reals), class labels concrete patterns including undeclared values; precision float64 (float32 as well for CPA, ANOVA, template build, t-test; for all in the thorough tier)',
+                thorough='n = 4 (8 compositions); MIA: n = 3'),
     assumptions=['floats are exact reals; equality of states / results is a polynomial (rational) identity decided by z3', 'MIA: samples symbolic, bin membership explored by forking'],
     outside=['batches of more than 4 traces', 'rounding at the requested precision'],
     stubs=['time.process_time: symbolic clock (kernel choice explored by the solver)', 'numba kernels interpreted'],
@@ -41,7 +41,7 @@ def jobs(tier, seed):
             if tier == 'quick' and p == 'float32' and d not in ('CPA', 'ANOVA', 'TTest', 'TemplateBuild'):
                 continue          # quick: the second precision only where the dtype handling differs per class
             for variant in range(2 if d in ('ANOVA', 'NICV', 'SNR-auto', 'TemplateBuild') else 1):
-                nn = 2 if (d == 'MIA' and tier == 'quick') else n          # MIA forks on every sample's bin: 5^n paths
+                nn = (2 if tier == 'quick' else 3) if d == 'MIA' else n          # MIA forks on every sample's position relative to the edges: up to 7^n paths
                 js.append(dict(name=f'{d}-{p}-n{nn}-v{variant}', dist=d, p=p, n=nn, variant=variant))
     return js
 
@@ -201,7 +201,7 @@ def run_job(job):
                 pr.prove(z3.BoolVal(not badt), desc + f': asking twice without new data returns the same answer (differing: {badt})', wit, sample=False)
                 if res['failures']:
                     return
-    explore(res, body, max_paths=800, timeout_ms=20000, precision=rnp.dtype(p), exact=True)     # MIA, n = 4: 5^4 = 625 bin assignments
+    explore(res, body, max_paths=800, timeout_ms=20000, precision=rnp.dtype(p), exact=True)
     return res
 
 
